@@ -412,6 +412,9 @@ pub fn model_of<'a>(sim: &'a mut Simulator, script: DevScript) -> Model<'a> {
         decoded: None,
         fetched: None,
         all_init: false,
+        halted: false,
+        iregs: false,
+        mcr: false,
         sim,
     }
 }
@@ -459,6 +462,8 @@ pub struct Exp {
     pub ntouched: usize,
     pub decoded: Option<crate::spec::instr::SI>,
     pub fetched: Option<u16>,
+    pub halted: bool,
+    pub mcr: bool,
 }
 
 pub fn predict(sim: &mut Simulator, script: DevScript) -> Exp {
@@ -467,7 +472,14 @@ pub fn predict(sim: &mut Simulator, script: DevScript) -> Exp {
 /// `strict_override`: run the model with this strictness instead of the simulator's flag (C14).
 /// `all_init`: every pre-state memory cell the model reads is assumed fully initialised.
 pub fn predict_with(sim: &mut Simulator, script: DevScript, strict_override: Option<bool>, all_init: bool) -> Exp {
+    predict_full(sim, script, strict_override, all_init, false)
+}
+/// `iregs`: the default internal-register mappings (PSR xFFFC, MCR xFFFE) are installed.
+pub fn predict_full(sim: &mut Simulator, script: DevScript, strict_override: Option<bool>, all_init: bool, iregs: bool) -> Exp {
+    let mcr0 = sim.mcr().load(std::sync::atomic::Ordering::Relaxed);
     let mut m = model_of(sim, script);
+    m.iregs = iregs;
+    m.mcr = mcr0;
     if let Some(s) = strict_override {
         m.flags.strict = s;
     }
@@ -494,6 +506,8 @@ pub fn predict_with(sim: &mut Simulator, script: DevScript, strict_override: Opt
         ntouched: m.ntouched,
         decoded: m.decoded,
         fetched: m.fetched,
+        halted: m.halted,
+        mcr: m.mcr,
     }
 }
 
@@ -641,6 +655,9 @@ pub fn assert_device_addrs(pred: impl Fn(u16) -> bool) {
             j += 1;
         }
     }
+}
+pub fn polls() -> usize {
+    unsafe { SH.npoll }
 }
 pub fn device_io_calls() -> usize {
     unsafe {
